@@ -717,7 +717,7 @@ def answer (stream : String) (f : Array String) : Ans :=
     (match r.bad with
      | some why => { m := "UNMODELLED " ++ why }
      | none =>
-       let cls := DriveC07.classOf (DriveC07.flagsOf acts)
+       let cls := C07.classOf (C07.flagsOf acts)
        { m := "|".intercalate r.obs, s := "|".intercalate (DriveC07.replaySpec acts), guard := if cls = "-" then "1" else "0", cls := cls })
   | "termgen" =>
     let seed := (g 0).toNat?.getD 1
